@@ -78,6 +78,9 @@ def hyp_shard(part, tier, shard, nshards, seed, stats, deadline, known, examples
     def body(spec):
         if state["dead"]:
             return
+        if time.time() > deadline:  # tier wall-clock cap: wind down quickly, what was explored so far is reported
+            stats.capped = True
+            return
         if state["fail_t"] is not None and time.time() - state["fail_t"] > shrink_budget:
             stats.shrink_budget_hit = True
             return
@@ -156,7 +159,7 @@ def hyp_shard(part, tier, shard, nshards, seed, stats, deadline, known, examples
     stats.done += done
 
 
-MEM_LIMIT = int(os.environ.get("VERIF_MEM_GB", "3")) << 30
+MEM_LIMIT = int(os.environ.get("VERIF_MEM_GB", "2")) << 30
 
 
 def run_task(args):
